@@ -128,6 +128,36 @@ def call(fn, *a):
         return 'exc', type(ex).__name__
 
 
+def _drive_threads(args):
+    """one harness thread: check digits, appending and validating of its own numbers (lengths differ per thread)"""
+    seed, k = args
+    out = []
+    for i in range(150):
+        r = drv.rng(seed, 'c15thr', k, i)
+        n = (15, 18, 31, 12, 16, 19, 25, 9)[k % 8]
+        digits = ''.join(r.choice('0123456789') for _ in range(n))
+        ev = []
+        kind, o = call(card.calculate_check_digit, digits)
+        ev.append(tev('check', digits, out=o if kind == 'ok' else '', kind=kind))
+        kind, o = call(card.add_check_digit, digits)
+        ev.append(tev('add', digits, out=o if kind == 'ok' and isinstance(o, str) else '', kind=kind))
+        if kind == 'ok' and isinstance(o, str) and len(o) == n + 1:
+            valid = o
+            j = r.randrange(len(valid))
+            wrong = valid[:j] + str((int(valid[j]) + r.randrange(1, 10)) % 10) + valid[j + 1:] if valid[j].isdigit() else valid
+            for v in (valid, wrong):
+                try:
+                    card.validate_check_digit(v)
+                    kd = 'ok'
+                except AssertionError:
+                    kd = 'assert'
+                except BaseException:  # noqa
+                    kd = 'exc'
+                ev.append(tev('validate', v, kind=kd, mode='normal'))
+        out.append({'tid': 0, 'events': ev, '_variants': [], '_desc': 'number %s' % digits})
+    return out
+
+
 def trace_validation(rep, wd, tier, seed):
     n = 1500 if tier == 'thorough' else 150
     traces = []
@@ -183,6 +213,8 @@ def trace_validation(rep, wd, tier, seed):
         traces.append({'tid': len(traces), 'events': [], '_variants': variants, '_desc': 'issuer prefix %04d' % pfx})
         allnums += variants
     normal, opt = validate_modes(allnums)
+    from . import isocheck
+    thr = [t for o in isocheck.mark_threaded(isocheck.threaded('harness.c15', '_drive_threads', [(seed, k) for k in range(8)], procs=2)) for t in o]
     p = 0
     for t in traces:
         for v in t['_variants']:
@@ -191,6 +223,9 @@ def trace_validation(rep, wd, tier, seed):
                 t['events'].append(tev('validate', v, kind=o if o in ('ok', 'assert') else 'exc', mode=mode))
             p += 1
     rep.extra['validate_calls'] = 2 * len(allnums)
+    for t in thr:
+        t['tid'] = len(traces)
+        traces.append(t)
     batches = core.split(traces, core.NCPU)
     from .c04 import validate_batches
 
